@@ -38,6 +38,7 @@ type Method struct {
 	Verb      string `json:"verb"`
 	Path      string `json:"path"`
 	OutputDir string `json:"output_dir"`
+	Extra     bool   `json:"extra_annotation,omitempty"` // a further (verb, path) annotation of the previous method's function: same handler, no handler generated
 }
 
 type Case struct {
@@ -86,6 +87,11 @@ func genCase(t *rapid.T) *Case {
 			name = fmt.Sprintf("GetUser%d", i)
 		case 1:
 			name = fmt.Sprintf("AB%dHandler", i)
+		}
+		if len(c.Methods) > 0 && v != "Any" && c.Methods[len(c.Methods)-1].Verb != "Any" && rapid.IntRange(0, 5).Draw(t, "extraAnnotation") == 0 {
+			// one IDL function, several annotations
+			c.Methods = append(c.Methods, Method{Name: c.Methods[len(c.Methods)-1].Name, Verb: v, Path: p, Extra: true})
+			continue
 		}
 		c.Methods = append(c.Methods, Method{Name: name, Verb: v, Path: p, OutputDir: ""})
 	}
@@ -562,16 +568,39 @@ func verify(p *prepared, o *caseOut) string {
 	}
 	for _, m := range p.c.Methods {
 		// the AST route of this method
+		// (a handler may be declared for several (verb, path) pairs: one IDL function with several
+		// annotations; each of them is one route of the same handler)
 		var ar *routeInfo
-		n := 0
-		for i := range p.ra.routes {
-			if p.ra.routes[i].handlerName == m.Name {
-				ar = &p.ra.routes[i]
-				n++
+		n, declared := 0, 0
+		for _, o := range p.c.Methods {
+			if o.Name == m.Name {
+				declared++
 			}
 		}
-		if n != 1 {
-			return fmt.Sprintf("handler %s is referenced %d times in the generated router", m.Name, n)
+		for i := range p.ra.routes {
+			if p.ra.routes[i].handlerName == m.Name {
+				n++
+				r := &p.ra.routes[i]
+				if declared == 1 {
+					ar = r
+					continue
+				}
+				if _, prefixes, err := p.ra.chain(r.groupVar); err == nil {
+					cum := ""
+					for _, pre := range prefixes {
+						cum = joinPath(cum, pre)
+					}
+					if joinPath(cum, r.path) == m.Path && (strings.EqualFold(r.verb, m.Verb)) {
+						ar = r
+					}
+				}
+			}
+		}
+		if n != declared {
+			return fmt.Sprintf("handler %s is referenced %d times in the generated router, declared for %d (verb, path) pairs", m.Name, n, declared)
+		}
+		if ar == nil {
+			return fmt.Sprintf("no registration of handler %s resolves to the declared %s %s", m.Name, m.Verb, m.Path)
 		}
 		mws, prefixes, err := p.ra.chain(ar.groupVar)
 		if err != nil {
